@@ -102,11 +102,11 @@ let ekind_name (e : ekind) : string =
 
 let summary_string (bs : block list) : string =
   let s = summarize bs in
-  Printf.sprintf "blocks=%d stored=%d fixed=%d dynamic=%d finals=%d lastfinal=%d matches=%d lits=%d maxdist=%d minlen=%d maxlen=%d maxstored=%d maxhlit=%d maxhdist=%d maxcodelen=%d"
+  Printf.sprintf "blocks=%d stored=%d fixed=%d dynamic=%d finals=%d lastfinal=%d matches=%d lits=%d maxdist=%d minlen=%d maxlen=%d maxstored=%d maxhlit=%d maxhdist=%d maxcodelen=%d fixedne=%d"
     (int_of_n s.ts_blocks) (int_of_n s.ts_stored) (int_of_n s.ts_fixed) (int_of_n s.ts_dynamic)
     (int_of_n s.ts_finals) (if s.ts_last_final then 1 else 0) (int_of_n s.ts_matches) (int_of_n s.ts_lits)
     (int_of_n s.ts_maxdist) (int_of_n s.ts_minlen) (int_of_n s.ts_maxlen) (int_of_n s.ts_maxstored)
-    (int_of_n s.ts_maxhlit) (int_of_n s.ts_maxhdist) (int_of_n s.ts_maxcodelen)
+    (int_of_n s.ts_maxhlit) (int_of_n s.ts_maxhdist) (int_of_n s.ts_maxcodelen) (int_of_n s.ts_fixed_nonempty)
 
 let zpair (p : (z * z)) = Printf.sprintf "%d,%d" (int_of_z (fst p)) (int_of_z (snd p))
 
